@@ -3,8 +3,6 @@
 package xcrd
 
 import (
-	extv1 "k8s.io/apiextensions-apiserver/pkg/apis/apiextensions/v1"
-
 	v1 "github.com/crossplane/crossplane/apis/apiextensions/v1"
 )
 
@@ -20,8 +18,3 @@ const (
 
 // VerifValidateClaimNames exposes validateClaimNames.
 func VerifValidateClaimNames(d *v1.CompositeResourceDefinition) error { return validateClaimNames(d) }
-
-// VerifGenCrdVersion exposes genCrdVersion.
-func VerifGenCrdVersion(vr v1.CompositeResourceDefinitionVersion, maxNameLength int64) (*extv1.CustomResourceDefinitionVersion, error) {
-	return genCrdVersion(vr, maxNameLength)
-}
